@@ -413,6 +413,15 @@ class Interp:
     def e_Dict(self, node, frame):
         return {self.eval(k, frame): self.eval(v, frame) for k, v in zip(node.keys, node.values)}
 
+    def e_Yield(self, node, frame):
+        f = frame
+        while f is not None and not hasattr(f, "yields"):
+            f = f.parent
+        if f is None:
+            raise CannotDecide("yield outside a generator frame")
+        f.yields.append(self.eval(node.value, frame) if node.value is not None else None)
+        return None
+
     def e_Lambda(self, node, frame):
         fi = FuncInfo(frame.mod, "<lambda>@%d" % node.lineno, node)
         return AFunc(fi)
@@ -555,10 +564,12 @@ class Interp:
             r = self.call_method(b, _DUNDER[_REFLECT[op]], [a], {}, node)
             return self.truth(r, node)
         a, b = simplify_str(a), simplify_str(b)
+        if op in (ast.Eq, ast.NotEq) and (a is None or b is None) and (getattr(a, "nonnull", False) or getattr(b, "nonnull", False)):
+            return op is ast.NotEq
         if op in (ast.Is, ast.IsNot):
             if a is None or b is None:
                 r = (a is None and b is None)
-                if isinstance(a, Opaque) or isinstance(b, Opaque):
+                if (isinstance(a, Opaque) or isinstance(b, Opaque)) and not (getattr(a, "nonnull", False) or getattr(b, "nonnull", False)):
                     r = self.fork("is None: %s" % short(node))
                 return r if op is ast.Is else not r
             r = a is b
@@ -1062,13 +1073,20 @@ class Interp:
                 raise RaiseEx("TypeError", node)
         if fi.parent is not None and hasattr(self, "_closure_frames"):
             fr.parent = self._closure_frames.get(id(fi.node))
+        is_gen = _is_generator(fi)
+        if is_gen:
+            fr.yields = []
         self.depth += 1
         try:
             self.exec_block(fi.body, fr)
         except ReturnEx as r:
+            if is_gen:
+                return AIter(fr.yields)
             return r.value
         finally:
             self.depth -= 1
+        if is_gen:
+            return AIter(fr.yields)
         return None
 
     def call_method(self, recv, name, args, kwargs, node=None):
@@ -1258,6 +1276,8 @@ class Interp:
             return None
         if name == "len":
             v = args[0]
+            if v is None or isinstance(v, (int, float)) and not isinstance(v, bool):
+                raise RaiseEx("TypeError", node)
             if hasattr(v, "a_len"):
                 return v.a_len(self)
             if isinstance(v, AObj) and v.cls is not None and self.repo.find_method(v.cls, "__len__") is not None:
@@ -1689,6 +1709,17 @@ _BUILTINS = {"len", "range", "list", "tuple", "dict", "set", "sorted", "reversed
              "bytearray", "object", "super", "divmod", "pow", "any", "all", "repr", "id", "hex",
              "string_types", "integer_types", "binary_type", "text_type", "cycle", "islice", "log", "pack",
              "a2b_hex", "reduce"}
+
+
+_GEN_CACHE = {}
+
+
+def _is_generator(fi):
+    k = id(fi.node)
+    if k not in _GEN_CACHE:
+        from .loader import walk_no_nested
+        _GEN_CACHE[k] = any(isinstance(n, (ast.Yield, ast.YieldFrom)) for n in walk_no_nested(fi.node))
+    return _GEN_CACHE[k]
 
 
 _LOCALS_CACHE = {}
